@@ -489,7 +489,8 @@ def pconn_cases(rng, paths, n_paths, n_random):
         while sum(writes) < total:
             writes.append(rng.choice([1, 2, 3, 39, 40, 100, 8192, 8194, 20000, total]))
         reply = [rng.choice(CLASS_LENGTHS[:7] + [rng.randint(0, 8192), 65535]) for _ in range(rng.randint(0, 5))]
-        cases.append({"pk": pk, "writes": writes, "trunc": rng.choice([0, 0, 0, 1, 2, 5]), "wb": 0, "rb": rng.choice([1, 8, 64]),
+        trunc = min(rng.choice([0, 0, 0, 1, 2, 5]), total - STUN_FRAME)      # never cut into the first (STUN) frame
+        cases.append({"pk": pk, "writes": writes, "trunc": trunc, "wb": 0, "rb": rng.choice([1, 8, 64]),
                       "reply": reply, "rchunks": [rng.choice([1, 2, 5, 1 << 20]) for _ in range(60)], "rcap": 65535, "tag": "random"})
     # WriteTo with every length class, without and with the write buffer
     for wb in (0, 4 << 20):
@@ -613,7 +614,7 @@ def c14(tier, seed):
         if quick:   # all chunkings of <= 2 packets, a seeded sample of those of 3 packets
             short = [p for p in paths if len(p[0]["pk"]) <= 2]
             long3 = [p for p in paths if len(p[0]["pk"]) > 2]
-            chosen = short + rng.sample(long3, min(2500, len(long3)))
+            chosen = short + rng.sample(long3, min(4000, len(long3)))
         else:
             chosen = paths
         cases = []
@@ -925,7 +926,7 @@ def c15(tier, seed):
         stale = mux_stale_counterexample(work, stats)
         stats["wall"]["model_check"] = round(time.time() - t0, 1)
         t0 = time.time()
-        scs = ([stale] if stale else []) + MUX_DIRECTED + mux_simulate(work, stats, 150 if quick else 3000, seed)
+        scs = ([stale] if stale else []) + MUX_DIRECTED + mux_simulate(work, stats, 300 if quick else 3000, seed)
         stats["wall"]["simulate"] = round(time.time() - t0, 1)
         for i, s in enumerate(scs):
             s["id"] = i + 1
@@ -945,7 +946,7 @@ def c15(tier, seed):
                 cur = e["id"] in ids
             if cur:
                 keep.append(e)
-        mux_conformance(work, stats, keep, "mux", 40 if quick else 600, timeout=200 if quick else 800)
+        mux_conformance(work, stats, keep, "mux", 100 if quick else 1500, timeout=200 if quick else 800)
         stats["wall"]["trace_validation"] = round(time.time() - t0, 1)
         first = next((i for i, e in enumerate(lines) if e["ev"] == "Reset" and i > 0), len(lines))
         stats["samples"].append({"scenario": {k: scs[0][k] for k in ("beh", "rb", "acts", "tag")},
